@@ -7,6 +7,7 @@ import CallbagModel.Closed.Linear
 import CallbagModel.Closed.Prog
 import CallbagModel.Closed.Prog2
 import CallbagModel.Closed.ProgTerm
+import CallbagModel.Inv.ConcatN
 /-!
 # C06 — iterable programming: pull pipelines compute the corresponding list function
 
@@ -227,5 +228,19 @@ theorem C06_every_program_completes (p : Closed.Prog2) (hok : p.ok) :
       (s.tr ≠ [] → t.tr ≠ []) ∧ ComposeTerm.Drain (Closed.thenM p.toM Closed.forEachM).M s t) ∧
     (∃ s, SReach (Closed.thenM p.toM Closed.forEachM).M s ∧ s.stack = [] ∧ s.tr ≠ [] ∧ applied s.tr = listSem p.toPipe) :=
   ⟨Closed.prog2_progress p hok, Closed.prog2_returns p hok, Closed.prog2_nonvacuous p hok⟩
+
+/-! ## n-ary `concat!` as ONE machine
+
+For n ≥ 3 the driver plugs every member into the n-ary concat machine (`Closed.concatM`: a fold of `plugM` over the members, slot 0
+innermost).  `Inv/ConcatN.lean` proves the head specification for exactly that term, by induction on the number of plugged slots
+(a PARTIALLY plugged concat machine projects onto the concat machine alone; each plugged member is summarised by what that machine's
+trace says at its index), hence: -/
+
+theorem C06_nary_concat (As : List Closed.AnyM) (hne : 0 < As.length) (ys : Nat → List Int)
+    (h : ∀ i (hi : i < As.length), PlugConcat.HeadOkT As[i].M (ys i) ∧ ComposeFull.NoUpstream As[i].M) :
+    ∀ s, SReach (Closed.thenM (Closed.concatM As) Closed.forEachM).M s →
+      BasicSafe s ∧ applied s.tr <+: ConcatN.catN ys As.length ∧
+      (s.stack = [] → s.tr ≠ [] → applied s.tr = ConcatN.catN ys As.length) :=
+  ConcatN.concatN_correct As hne ys h
 
 end Cb.Thm
